@@ -31,7 +31,7 @@ var (
 		" ", "\n\t", "\u00a0", "  \r\n ", "\u2003"}
 	jidPool  = []string{"", "example.net", "a@example.net", "b@example.com/res", "ü@example.org/r ☃", "c@example.net/a<&>'\"b"}
 	rawAddr  = []string{"", "example.net", "A@Example.NET/Res", "b@example.com/res", "@bad", "a@b@c", "ü@example.org/r", "x@example.com/"}
-	spaces   = []string{"", "jabber:client", "jabber:server", "urn:other"}
+	spaces   = []string{"", "jabber:client", "jabber:server", "urn:other", "jabber:component:accept", "jabber:component:connect"}
 	iqTypes  = []string{"get", "set", "result", "error"}
 	msgTypes = []string{"normal", "chat", "error", "groupchat", "headline"}
 	prTypes  = []string{"", "error", "probe", "subscribe", "subscribed", "unavailable", "unsubscribe", "unsubscribed"}
@@ -335,6 +335,12 @@ func (c *ctxT) stanzaCase(x stz, payload []xml.Token, rnd *common.Rand) {
 			c.fail("error-roundtrip", "UnmarshalError", []string{r.Prop + " " + eline}, fmt.Sprintf("got %+v want %+v", fromErr(ue), canonErr(e)))
 		}
 	}
+	// --- the same reply after a trip through bytes: unqualified elements (the <error/> written by
+	// Error.Wrap) are read back in the content namespace of the stanza, whatever that is
+	if len(et) > 2 {
+		c.uerrLine(et[1:])
+		c.wireCase(x, e, et, []string{r.Prop + " " + eline})
+	}
 	// --- the two encodings: well-formed, decode to the same value, equal to the original
 	b1, err1 := xml.Marshal(v)
 	b2, err2 := encodeTokens(wrapOf(v, nil))
@@ -375,6 +381,99 @@ func (c *ctxT) stanzaCase(x stz, payload []xml.Token, rnd *common.Rand) {
 			}
 			c.fail("roundtrip", fmt.Sprintf("stanza/%s/%s/path%d", kind, f, i+1), lines, fmt.Sprintf("field %s: decoded %+v, original %+v (%q)", f, u, x, [][]byte{b1, b2}[i]))
 		}
+	}
+}
+
+// wireTrip prints the tokens with a plain encoder and parses the bytes again; namespace
+// declarations (which the decoder reports as attributes as well as in the names) are dropped.
+func wireTrip(ts []xml.Token) ([]xml.Token, []byte, error) {
+	b, err := encodeTokens(&sliceReader{t: ts})
+	if err != nil {
+		return nil, nil, err
+	}
+	wt, err := common.Tokenize(b)
+	if err != nil {
+		return nil, b, err
+	}
+	for i, t := range wt {
+		if st, ok := t.(xml.StartElement); ok {
+			var as []xml.Attr
+			for _, a := range st.Attr {
+				if !(a.Name.Space == "xmlns" || (a.Name.Space == "" && a.Name.Local == "xmlns")) {
+					as = append(as, a)
+				}
+			}
+			st.Attr = as
+			wt[i] = st
+		}
+	}
+	return wt, b, nil
+}
+
+// uerrLine: stanza.UnmarshalError on the tokens that follow the start element of a stanza.
+func (c *ctxT) uerrLine(after []xml.Token) (stanza.Error, string) {
+	r := c.r
+	table := "-"
+	for _, t := range after {
+		if s, ok := t.(xml.StartElement); ok && s.Name.Local == "error" {
+			table = parseTable(s)
+			break
+		}
+	}
+	line := fmt.Sprintf("uerr %s %s", common.EncToks(after), table)
+	v, err, pan := unmarshalError(after)
+	obs := ""
+	switch {
+	case pan != "":
+		obs = "PANIC"
+		c.fail("total", "UnmarshalError", []string{r.Prop + " " + line}, pan)
+	case err != nil && strings.Contains(err.Error(), "expected error payload"):
+		obs = "missing"
+	case err != nil:
+		obs = "bad"
+	default:
+		obs = "ok " + fromErr(v).fields()
+	}
+	r.Line(line, obs)
+	r.Case(line, err == nil, "uerr")
+	return v, obs
+}
+
+// wireCase: the error reply et of stanza x (error e) printed and parsed again: still a reply of
+// the right kind with the addresses swapped, and UnmarshalError returns the original error.
+func (c *ctxT) wireCase(x stz, e serr, et []xml.Token, lines []string) {
+	r := c.r
+	wline := "wire " + common.EncToks(et)
+	wt, b, err := wireTrip(et)
+	if err != nil {
+		r.Line(wline, "unbalanced")
+		c.fail("wellformed", "reply/"+x.kind, lines, fmt.Sprintf("%q: %v", b, err))
+		return
+	}
+	r.Line(wline, common.EncToks(common.SortedAttrs(wt)))
+	r.Case(wline, true, "wire")
+	if len(wt) < 2 {
+		c.fail("wellformed", "reply/"+x.kind, lines, fmt.Sprintf("%q: no element", b))
+		return
+	}
+	st, ok := wt[0].(xml.StartElement)
+	if !ok {
+		c.fail("wellformed", "reply/"+x.kind, lines, fmt.Sprintf("%q: no start element", b))
+		return
+	}
+	got, local, nerr, pan := newOf(x.kind, st)
+	if nerr != nil || pan != "" {
+		c.fail("swap", "error/wire", lines, fmt.Sprintf("the reply read back from %q does not parse: %v %s", b, nerr, pan))
+	} else if got.to != x.from || got.from != x.to || got.id != x.id || got.lang != x.lang || got.typ != "error" || got.space != x.space || local != x.kind {
+		c.fail("swap", "error/wire", lines, fmt.Sprintf("reply %+v read back from %q for %+v", got, b, x))
+	}
+	ue, obs := c.uerrLine(wt[1:])
+	switch {
+	case obs == "PANIC":
+	case !strings.HasPrefix(obs, "ok "):
+		c.fail("error-roundtrip", "UnmarshalError/wire", lines, fmt.Sprintf("the error of the reply read back from %q (content namespace %q) is not found or not decoded: %s", b, x.space, obs))
+	case !reflect.DeepEqual(canonErr(fromErr(ue)), canonErr(e)):
+		c.fail("error-roundtrip", "UnmarshalError/wire", lines, fmt.Sprintf("got %+v want %+v (%q)", fromErr(ue), canonErr(e), b))
 	}
 }
 
